@@ -1,9 +1,10 @@
 From Coq Require Import Extraction ExtrOcamlBasic.
-From SqfsV Require Import Base.Bytes C10.GenC10 C10.MetaModel C10.ClientModel C10.DataModel C10.ApiModel C10.XFineModel.
+From SqfsV Require Import Base.Bytes C10.GenC10 C10.MetaModel C10.ClientModel C10.DataModel C10.ApiModel C10.XFineModel C10.ReaddirLowModel.
 Extraction "c10_model.ml" read_at mr_create seek read get_position step run run_client c_read c_seek cbind
   dr_create api_read api_get_block api_get_fragment stream_create stream_read load_fragment_table
   on_disk nothing_positioned
   inode_client finode_of open_dir_client readdir_many resolve_path_client
   xattr_load xattr_desc_client xattr_all_client xattr_partial_loop xattr_fuel
   id_table_read id_lookup
-  xf_step xf_fresh cursor_ops.
+  xf_step xf_fresh cursor_ops
+  readdir_state_init readdir_low_many.
